@@ -519,7 +519,7 @@ fn sentence_outcome(s: &RawSentence) -> Result<ROutcome, Fail> {
 
 fn gstep_strategy() -> impl Strategy<Value = GStep> {
     prop_oneof![
-        60 => (any::<u8>(), any::<u8>(), prop_oneof![0u16..16384, Just(0u16), Just(16383u16), Just(127u16)], any::<u8>(), any::<bool>()).prop_map(|(sel, kind, a, b, flag)| GStep::Item { sel, kind, a, b, flag }),
+        60 => (any::<u8>(), any::<u8>(), prop_oneof![5 => 0u16..16384, 2 => 0u16..8, 1 => Just(16383u16), 1 => Just(127u16), 1 => (0u16..16).prop_map(|x| x << 7 | 6)], any::<u8>(), any::<bool>()).prop_map(|(sel, kind, a, b, flag)| GStep::Item { sel, kind, a, b, flag }),
         18 => any::<u8>().prop_map(|sel| GStep::Poll { sel }),
         14 => (0u8..8, any::<u64>()).prop_map(|(which, free)| GStep::Advance { which, free }),
         8 => (any::<u8>(), any::<u8>(), any::<u8>(), any::<u8>()).prop_map(|(sel, k, x, y)| GStep::Noise { sel, k, x, y }),
@@ -764,7 +764,7 @@ pub fn check_encode_feed_poll(timeout: u64, prior: &[Op], r: &PnReport, lsb_firs
 }
 
 fn report_strategy() -> impl Strategy<Value = PnReport> {
-    (0usize..8, 0u8..16, prop_oneof![0u16..16384, Just(0u16), Just(16383u16), Just(127u16), Just(128u16)], 0u16..16384).prop_map(|(c, ch, number, v)| ctor_report(c, ch, number, v % (value_max(c) + 1)))
+    (0usize..8, prop_oneof![4 => 0u8..16, 1 => Just(0u8), 1 => Just(15u8)], prop_oneof![6 => 0u16..16384, 2 => 0u16..8, 1 => Just(16383u16), 1 => Just(127u16), 1 => Just(128u16)], 0u16..16384).prop_map(|(c, ch, number, v)| ctor_report(c, ch, number, v % (value_max(c) + 1)))
 }
 
 pub fn run_c12(ctx: &Ctx) -> Report {
